@@ -93,7 +93,7 @@ func c17ForgeKeyProof(s *ValidKeyProofStructure, g zkproof.Group, P, Q, star, pv
 func TestVerifC17Forgery(t *testing.T) {
 	r := vkit.Start(t, "C17", "whole-proof-forgery", 400*time.Second, 1500*time.Second)
 	defer r.Finish()
-	r.Rule = "moduli N = (2 r^3 + 1) * q (first factor prime but not a safe prime, q a safe prime; both orders of the factors) with 2 bases; forger = honest prover for everything that is true + Gennaro subproofs with its own square roots modulo r^3 q' + an unrelated prime committed as p' + the commitment to p replaced by each of {0, P, 2P, 1, P-1} (P = group prime), challenge computed over what the verifier reconstructs; control: the same replica of BuildProof with two safe primes and nothing degenerate; non-trivial = distinct (modulus, degenerate value); oracle: control accepted, every forgery rejected"
+	r.Rule = "moduli N = (2 r^3 + 1) * q (first factor prime but not a safe prime, q a safe prime; both orders of the factors) with 2 bases; forger = honest prover for everything that is true + Gennaro subproofs with its own square roots modulo r^3 q' + an unrelated prime committed as p' + the commitment to p replaced by each of {0, P, 2P, 1, P-1} (P = group prime), challenge computed over what the verifier reconstructs; control: the same replica of BuildProof with two safe primes and nothing degenerate; on the control proof the almost-safe-prime-product part is rebuilt (fresh commitments, honest responses) after the challenge is known; non-trivial = distinct (modulus, degenerate value); oracle: control accepted, every forgery rejected"
 	if r.Shard != 0 {
 		return
 	}
@@ -128,6 +128,25 @@ func TestVerifC17Forgery(t *testing.T) {
 		if !ok {
 			r.HarnessError("the harness's replica of BuildProof does not produce an accepted proof for a good key")
 			return
+		}
+		// a sub-proof rebuilt AFTER the challenge is known: the almost-safe-prime-product part is the one
+		// Gennaro-style part with commitments of its own; fresh commitments with honest responses for the
+		// old challenge must not be accepted (they were not what the challenge was computed over)
+		{
+			r.Eval()
+			r.Nontrivial("ASPP part rebuilt after the challenge")
+			Pp, Qp := new(big.Int).Rsh(P, 1), new(big.Int).Rsh(Q, 1)
+			_, commit2 := almostSafePrimeProductBuildCommitments(nil, Pp, Qp)
+			alt := proof
+			alt.QSPPproof.ASPPproof = almostSafePrimeProductBuildProof(Pp, Qp, proof.Challenge, big.NewInt(3), commit2)
+			var ok2 bool
+			if pan, _ := vkit.Guard(func() { ok2 = s.VerifyProof(alt) }); pan {
+				ok2 = false
+			}
+			r.Outcome(fmt.Sprintf("rebuilt-after-challenge:ASPP:accepted=%v", ok2))
+			if ok2 {
+				r.Violate("C17|sub-proof-rebuilt-after-the-challenge-accepted|almost-safe-prime-product", "fresh ASPP commitments with responses computed for the old challenge were accepted: these commitments are not bound into the challenge", nil)
+			}
 		}
 	}
 	star := new(big.Int).Lsh(big.NewInt(1), 43) // the unrelated prime committed as p'
